@@ -194,5 +194,42 @@ pub fn run_c13(ctx: &Ctx) -> Report {
     let mut rng = Rng::new(ctx.seed ^ 0xC13);
     run_suite(&mut rep, &mut rng, ctx.n(200, 4000), &Suite { id: "C13", opts: GenOpts { faults: false, subsume: true, delete: true, pushpop: false, ncmds: 12 }, threads: 1, pairs: false });
     run_suite(&mut rep, &mut rng, ctx.n(40, 800), &Suite { id: "C13", opts: GenOpts { faults: false, subsume: true, delete: true, pushpop: false, ncmds: 10 }, threads: 4, pairs: false });
+    subsume_join_scenarios(&mut rep, &mut rng, ctx.n(60, 1200));
     rep
+}
+
+/// Directed: a rule whose body joins 1..5 atoms and can only fire through ONE row, which has been subsumed (at top
+/// level or by a rule head) — it must not fire, whatever the size and order of the body; without the subsume the
+/// same rule must fire (control).
+fn subsume_join_scenarios(rep: &mut Report, rng: &mut Rng, n: usize) {
+    const HDR: &str = "(sort E)\n(constructor A () E)\n(constructor B () E)\n(constructor F (E) E)\n(constructor G (E E) E)\n(constructor H (E) E)\n(relation R (E))\n(relation S (E))\n(relation Hit (E))\n(relation Go ())\n(ruleset r)\n(ruleset pre)\n(F (A))\n(G (A) (B))\n(H (A))\n(R (A))\n(S (B))\n";
+    // one engine per thread count, cloned per scenario (a thread pool per scenario would pile up memory)
+    let bases: Vec<egglog::EGraph> = vec![egglog::EGraph::default(), egglog::EGraph::default().with_num_threads(4)];
+    for _ in 0..n {
+        // candidate atoms over the shared variable y; (text, the constructor row it needs, needs w bound)
+        let pool: [(&str, Option<&str>); 5] = [("(= x (F y))", Some("(F (A))")), ("(= z (G y w))", Some("(G (A) (B))")), ("(= u (H y))", Some("(H (A))")), ("(R y)", None), ("(S w)", None)];
+        let k = 1 + rng.below(5);
+        let mut idx: Vec<usize> = (0..5).collect(); for i in (1..5).rev() { idx.swap(i, rng.below(i + 1)); }
+        let mut chosen: Vec<usize> = idx.into_iter().take(k).collect();
+        if chosen.contains(&4) && !chosen.contains(&1) { chosen.push(1); }          // (S w) needs w from the G atom
+        if !chosen.iter().any(|i| pool[*i].1.is_some()) { chosen.push(0); }          // at least one subsumable atom
+        let dead = { let c: Vec<usize> = chosen.iter().copied().filter(|i| pool[*i].1.is_some()).collect(); c[rng.below(c.len())] };
+        let dead_row = pool[dead].1.unwrap();
+        let body = chosen.iter().map(|i| pool[*i].0).collect::<Vec<_>>().join(" ");
+        let head_var = if chosen.contains(&0) { "x" } else if chosen.contains(&1) { "z" } else { "u" };
+        let rule = format!("(rule ({body}) ((Hit {head_var})) :ruleset r)");
+        let by_rule = rng.chance(1, 3);
+        let kill = if by_rule { format!("(rule ((Go)) ((subsume {dead_row})) :ruleset pre)\n(Go)\n(run pre 1)") } else { format!("(subsume {dead_row})") };
+        let prog = |with: bool| format!("{HDR}{}\n{rule}\n(run r 2)", if with { kill.clone() } else { String::new() });
+        rep.evaluations += 1;
+        for (seminaive, threads) in [(true, 1usize), (false, 1), (true, 4)] {
+            let mut eg = bases[if threads == 1 { 0 } else { 1 }].clone(); eg.seminaive = seminaive;
+            if !engine::run(&mut eg, &prog(true)).is_ok() { rep.violate("correspondence", "c13-setup", "directed subsume-join scenario rejected".into(), json!({"program": prog(true)})); break; }
+            let hits = eg.get_size("Hit");
+            if hits != 0 { rep.violate("property", "c13-subsumed-row-matched", format!("a rule with {} body atoms fired {hits} time(s) through the subsumed row {dead_row} (seminaive={seminaive}, threads={threads})", chosen.len()), json!({"program": prog(true)})); break; }
+        }
+        let mut ctl = bases[0].clone();
+        if engine::run(&mut ctl, &prog(false)).is_ok() && ctl.get_size("Hit") >= 1 { rep.note_nontrivial(&(&rule, dead_row, by_rule)); rep.count("subsume_join_scenarios_with_firing_control", 1); }
+        else { rep.violate("correspondence", "c13-setup", "the control (no subsume) of a directed subsume-join scenario does not fire".into(), json!({"program": prog(false)})); }
+    }
 }
